@@ -177,6 +177,57 @@ def collective_rule(ctx):
     return hits, n_sites
 
 
+def loss_worker(job):
+    """'One sample can never influence another's ... loss': the per-sample losses (reduce=None) of a batch are
+    interpreted on symbolic predictions / targets; entry i (every time step of it) may depend only on pixels of batch
+    entry i, and must equal the loss of that entry alone."""
+    repo, fn, D, steps, B = job
+    it, w = get_interp(repo)
+    ml = it.get_module("ginjax.ml")
+    types = [(0, 0), (1, 0)]
+    ch = {(0, 0): 2, (1, 0): 1}
+    sp = SPATIAL[D]
+    xb = {t: block("x", t, (B, ch[t] * steps), sp, D) for t in types}
+    yb = {t: block("y", t, (B, ch[t] * steps), sp, D) for t in types}
+    cfg = dict(op=fn, D=D, batch=B, steps=steps, channels_per_step={tname(t): c for t, c in ch.items()}, reduce=None)
+    problems = []
+    f = getattr(ml, fn)
+
+    def call(xblocks, yblocks):
+        x = make_multi(it, types, xblocks, D, True)
+        y = make_multi(it, types, yblocks, D, True)
+        return f(x, y, None) if fn == "smse_loss" else f(x, y, steps, None)
+
+    res = attempt(lambda: call(xb, yb))
+    if isinstance(res, Rejected):
+        problems.append(("rejected", "%s(reduce=None) rejected: %s" % (fn, res.exc), None))
+        return dict(cfg=cfg, problems=problems)
+    if not isinstance(res, A.Arr) or res.ndim < 1 or res.shape[0] != B:
+        problems.append(("shape", "%s(reduce=None) returns %r for a batch of %d" % (fn, getattr(res, "shape", res), B), None))
+        return dict(cfg=cfg, problems=problems)
+    for i in range(B):
+        row = res[i]
+        bad = None
+        for e in (row.elems if isinstance(row, A.Arr) else [row]):
+            for (n, idx) in leaves_of(as_poly(e)):
+                if idx[0] != i:
+                    bad = (n, idx)
+                    break
+            if bad:
+                break
+        if bad:
+            problems.append(("per-image", "the loss of batch entry %d depends on %s%s, a pixel of batch entry %d" % (i, bad[0], list(bad[1]), bad[1][0]), site_of(res)))
+            break
+        alone = attempt(lambda: call({t: b[i:i + 1] for t, b in xb.items()}, {t: b[i:i + 1] for t, b in yb.items()}))
+        if isinstance(alone, Rejected):
+            problems.append(("rejected", "%s rejected a batch of one: %s" % (fn, alone.exc), None))
+            break
+        if not same_elems(A.reshape(alone, row.shape) if isinstance(row, A.Arr) else alone, row):
+            problems.append(("per-image", "the loss of batch entry %d within the batch differs from the loss of that entry alone" % i, site_of(res)))
+            break
+    return dict(cfg=cfg, problems=problems)
+
+
 def run(ctx):
     ev, pm = ctx.ev, ctx.pm
     ev.explanation = (
@@ -229,5 +280,17 @@ def run(ctx):
         q = "MultiImage." + op
         node = pm.func(MI_MOD, q)
         ctx.add(Finding("C14", "C14.AXI." + kind, q, "%s (%d of the swept configurations fail)" % (what, len(items)), pm.path(MI_MOD), node.lineno, cfg, op))
+    lj = [(ctx.repo, "smse_loss", D, 1, 3) for D in (1, 2)] + [(ctx.repo, "timestep_smse_loss", D, st, B) for D in (1, 2) for st in (1, 3) for B in (2, 3)]
+    for q in ("smse_loss", "timestep_smse_loss"):
+        pm.func(LOSSES_MOD, q)
+        ev.functions.add(LOSSES_MOD + "." + q)
+    lby = {}
+    for job, r in ctx.pairs(loss_worker, lj):
+        ev.obligation("per-sample loss", not r["problems"], tuple(str(v) for v in r["cfg"].values()))
+        for kind, what, site in r["problems"]:
+            lby.setdefault((r["cfg"]["op"], kind), []).append((what, site, r["cfg"]))
+    for (q, kind), items in sorted(lby.items()):
+        what, site, cfg = items[0]
+        ctx.add(Finding("C14", "C14.AXI." + kind, q, "%s (%d of the swept configurations fail)" % (what, len(items)), pm.path(LOSSES_MOD), pm.func(LOSSES_MOD, q).lineno, cfg, kind + ":loss"))
     ev.instances("C14.AXI.obligations", ev.obligations, floor=80 if ctx.tier == "quick" else 150)
     ev.exhaustive = ctx.thorough()
